@@ -294,5 +294,29 @@ func sCap(s *Term) *Term { return Acc(s, 3) }
 func (x *Exec) elemLV(st *State, slice *Term, idx *Term, elemT types.Type) *LValue {
 	key, sort := elemHeapKey(sortOf(elemT))
 	heapSorts[key] = sort
-	return &LValue{Key: key, Sort: sort, Ref: sArr(slice), Idx: Add(sOff(slice), idx), Typ: elemT}
+	return &LValue{Key: key, Sort: sort, Ref: sArr(slice), Idx: ix(sOff(slice), idx), Typ: elemT}
+}
+
+// ix(off, i) is the array index of element i of a slice with offset off. It is kept as an
+// uninterpreted application (axiom: ix(off,i) = off+i) unless off is literally 0, so that
+// quantifier patterns over slice elements contain no arithmetic (e-matching would miss
+// instances once the solver normalises sums).
+func ix(off, i *Term) *Term {
+	if n, ok := isLitInt(off); ok && n.Sign() == 0 {
+		return i
+	}
+	if _, ok := isLitInt(off); ok {
+		if _, ok2 := isLitInt(i); ok2 {
+			return Add(off, i)
+		}
+	}
+	declare("ix", []string{"Int", "Int"}, "Int")
+	return App("ix", "Int", off, i)
+}
+
+func ixAxiom() *Term {
+	a := BoundVar("q_a", "Int")
+	b := BoundVar("q_b", "Int")
+	t := App("ix", "Int", a, b)
+	return Forall([]*Term{a, b}, [][]*Term{{t}}, Eq(t, Add(a, b)))
 }
